@@ -8,6 +8,8 @@ import (
 	"math/bits"
 	"path/filepath"
 	"strings"
+
+	"github.com/alicebob/sqlittle/sql"
 )
 
 const (
@@ -334,12 +336,12 @@ func (db *Database) master() ([]sqliteMaster, error) {
 		if s, ok := e[1].(string); !ok {
 			return false, ErrInvalidDef
 		} else {
-			m.name = strings.ToLower(s)
+			m.name = sql.ToLower(s)
 		}
 		if s, ok := e[2].(string); !ok {
 			return false, ErrInvalidDef
 		} else {
-			m.tblName = strings.ToLower(s)
+			m.tblName = sql.ToLower(s)
 		}
 		if n, ok := e[3].(int64); !ok {
 			return false, ErrInvalidDef
@@ -453,7 +455,7 @@ func (db *Database) Table(name string) (*Table, error) {
 	if err != nil {
 		return nil, err
 	}
-	n := strings.ToLower(name)
+	n := sql.ToLower(name)
 	for _, o := range objects {
 		if o.typ == "table" && o.name == n {
 			return &Table{db: db, root: o.rootPage, sql: o.sql}, nil
@@ -469,7 +471,7 @@ func (db *Database) NonRowidTable(name string) (*Index, error) {
 	if err != nil {
 		return nil, err
 	}
-	n := strings.ToLower(name)
+	n := sql.ToLower(name)
 	for _, o := range objects {
 		if o.typ == "table" && o.name == n {
 			return &Index{db: db, root: o.rootPage, sql: o.sql}, nil
@@ -489,7 +491,7 @@ func (db *Database) Index(name string) (*Index, error) {
 	if err != nil {
 		return nil, err
 	}
-	n := strings.ToLower(name)
+	n := sql.ToLower(name)
 	for _, o := range objects {
 		if o.typ == "index" && o.name == n {
 			return &Index{db: db, root: o.rootPage, sql: o.sql}, nil
